@@ -1396,8 +1396,13 @@ class Stage:
                 subst_to.append(ret.t)
             else:
                 subst_to.append(MX.sym(k.name(), k.sparsity()))
+        # Expressions stored inside placeholders, dynamics and guesses may refer to placeholder symbols
+        # themselves (e.g. ocp.t inside an integrand or a right-hand side): renew those as well
+        def renew(e):
+            return substitute([e], subst_from, subst_to)[0] if isinstance(e, MX) else e
         for k_old, k_new in zip(subst_from, subst_to):
-            ret._placeholders[k_new] = self._placeholders[k_old]
+            species, expr, p_args, p_kwargs = self._placeholders[k_old]
+            ret._placeholders[k_new] = (species, renew(expr), p_args, p_kwargs)
 
         ret.states = copy(self.states)
         ret.controls = copy(self.controls)
@@ -1407,10 +1412,10 @@ class Stage:
 
         ret._offsets = deepcopy(self._offsets)
         ret._param_vals = copy(self._param_vals)
-        ret._state_der = copy(self._state_der)
+        ret._state_der = HashDict([(k, renew(v)) for k, v in self._state_der.items()])
         ret._scale_der = copy(self._scale_der)
-        ret._alg = copy(self._alg)
-        ret._state_next = copy(self._state_next)
+        ret._alg = [renew(e) for e in self._alg]
+        ret._state_next = HashDict([(k, renew(v)) for k, v in self._state_next.items()])
         constr_types = self._constraints.keys()
         orig = []
         for k in constr_types:
@@ -1427,7 +1432,7 @@ class Stage:
             ret._constraints[k] = list(zip(r, [merge_meta(m, get_meta()) for _, m, _ in v], [d for _, _, d in v]))
             r = r[len(v):]
 
-        ret._initial = HashOrderedDict(zip(res[n_constr+1:], self._initial.values()))
+        ret._initial = HashOrderedDict(zip(res[n_constr+1:], [renew(v) for v in self._initial.values()]))
 
         if "T" not in kwargs:
             ret._T = copy(self._T)
